@@ -68,6 +68,8 @@ Record Inv2 (c : cfg) (s : st) : Prop := {
 
 Ltac norm :=
   repeat match goal with
+  | H : running ?s = _ |- _ => progress (rewrite H in * |-)
+  | H : ?P -> _, H' : ?P |- _ => specialize (H H')
   | H : ?x = ?x -> _ |- _ => specialize (H eq_refl)
   | H : true = false -> _ |- _ => clear H
   | H : false = true -> _ |- _ => clear H
@@ -102,9 +104,184 @@ Proof.
   intros s s' I J H. unfold d_step in H.
   destruct J as [J1 J2 J3 J4 J5 J6 J7 J8 J9 J10 J11].
   pose proof (iClosed c s I) as IC.
-  destruct (disp s) eqn:Ed; cbn [c repaired fCondFree orb] in H; brk H; inversion H; subst; clear H; constructor; proj;
-    rewrite ?Ed in *; cbn [dpost] in *; auto; intros; norm; try discriminate; try (split; intros; norm); auto;
+  pose proof (sumf_le_pointwise _ e_send e_sendbc (exts s) send_le_sendbc) as SB.
+  destruct (disp s) eqn:Ed; cbn [c repaired fCondFree orb] in H;
+    try (destruct (running s) eqn:Er); try (destruct (queue s) eqn:Eq); cbn [orb negb] in H;
+    brk H; inversion H; subst; clear H; constructor; proj;
+    rewrite ?Ed, ?Er, ?Eq in *; cbn [dpost] in *; auto; intros; norm; try discriminate; try (split; intros; norm); auto;
     try congruence; try lia.
+Qed.
+
+(* ---------- a step inside Submit, by whichever thread ---------- *)
+Ltac fin :=
+  auto; intros; norm; try discriminate; try (split; intros; norm); auto; try congruence; try lia.
+
+Definition rd_of (np : option spc) : nat := match np with Some p => sp_rd p | None => 0 end.
+Definition bc_of (np : option spc) : nat := match np with Some p => sp_bc p | None => 0 end.
+
+Lemma inv2_sub : forall s u p s2 np s', Inv c s -> Inv2 c s -> sub_step c s u p = Some (s2, np) ->
+  running s' = running s2 -> readers s' = readers s2 -> tokens s' = tokens s2 -> queue s' = queue s2 -> disp s' = disp s2 ->
+  closed s' = closed s2 ->
+  sumf w_rd (wks s') + sumf e_rd (exts s') + sp_rd p = sumf w_rd (wks s) + sumf e_rd (exts s) + rd_of np ->
+  sumf w_bc (wks s') + sumf e_bc (exts s') + sp_bc p = sumf w_bc (wks s) + sumf e_bc (exts s) + bc_of np ->
+  sumf w_rl (wks s') = sumf w_rl (wks s) ->
+  sumf e_hold (exts s') = sumf e_hold (exts s) -> sumf e_owed (exts s') = sumf e_owed (exts s) ->
+  sumf e_send (exts s') = sumf e_send (exts s) -> sumf e_sendbc (exts s') = sumf e_sendbc (exts s) ->
+  sumf e_wait (exts s') = sumf e_wait (exts s) ->
+  sp_rd p <= sumf w_rd (wks s) + sumf e_rd (exts s) ->
+  Inv2 c s'.
+Proof.
+  intros s u p s2 np s' I J HS E1 E2 E3 E4 E5 E6 R B L F1 F2 F3 F4 F5 G.
+  destruct J as [J1 J2 J3 J4 J5 J6 J7 J8 J9 J10 J11].
+  pose proof (iW' s I) as W. unfold rfree in W.
+  pose proof (sumf_le_pointwise _ e_hold (e_wp c) (exts s) hold_le_wp) as HW.
+  unfold sub_step in HS; cbn [c repaired fSubLock fCondFree] in HS; unfold rfree in *.
+  assert (T: forall P : Prop, (s2 = s2 -> P) -> P) by auto.
+  destruct p.
+  - destruct (writer s) eqn:Ew; try discriminate. destruct (running s) eqn:Er; inversion HS; subst s2 np; clear HS;
+      cbn [rd_of bc_of sp_rd sp_bc b2n negb] in *; proj; constructor;
+      rewrite ?E1, ?E2, ?E3, ?E4, ?E5, ?E6, ?F1, ?F2, ?F3, ?F4, ?F5, ?L in *; fin.
+  - inversion HS; subst s2 np; clear HS; cbn [rd_of bc_of sp_rd sp_bc b2n negb] in *; proj; constructor;
+      rewrite ?E1, ?E2, ?E3, ?E4, ?E5, ?E6, ?F1, ?F2, ?F3, ?F4, ?F5, ?L in *; fin.
+  - destruct (smx_free s) eqn:Es; inversion HS; subst s2 np; clear HS; cbn [rd_of bc_of sp_rd sp_bc b2n negb] in *; proj.
+    assert (Rn: running s = true) by (destruct (running s); auto; specialize (J3 eq_refl); lia).
+    assert (Dp: dpost (disp s) = false) by (destruct (dpost (disp s)); auto; destruct (J7 eq_refl); congruence).
+    unfold smx_free in Es.
+    constructor; rewrite ?E1, ?E2, ?E3, ?E4, ?E5, ?E6, ?F1, ?F2, ?F3, ?F4, ?F5, ?L in *; fin.
+    destruct (disp s); discriminate.
+  - inversion HS; subst s2 np; clear HS; cbn [rd_of bc_of sp_rd sp_bc b2n negb] in *.
+    unfold bcast in *. destruct (disp s) eqn:Ed; proj;
+      constructor; rewrite ?E1, ?E2, ?E3, ?E4, ?E5, ?E6, ?F1, ?F2, ?F3, ?F4, ?F5, ?L, ?Ed in *; cbn [dpost] in *; fin.
+  - inversion HS; subst s2 np; clear HS; cbn [rd_of bc_of sp_rd sp_bc b2n negb] in *; proj; constructor;
+      rewrite ?E1, ?E2, ?E3, ?E4, ?E5, ?E6, ?F1, ?F2, ?F3, ?F4, ?F5, ?L in *; fin.
+Qed.
+
+(* ---------- worker steps ---------- *)
+Ltac su_w SU :=
+  match goal with |- Inv2 _ (set_wks (upd _ ?x _) _) => pose proof (SU w_rd x); pose proof (SU w_bc x); pose proof (SU w_rl x) end.
+
+Lemma inv2_wstep : forall s k w ch s1 w', Inv c s -> Inv2 c s -> nth_error (wks s) k = Some w -> w_step c s w ch = Some (s1, w') ->
+  Inv2 c (set_wks (upd k w' (wks s1)) s1).
+Proof.
+  intros s k w ch s1 w' I J Hk H.
+  assert (SU: forall f x, sumf f (upd k x (wks s)) + f w = sumf f (wks s) + f x) by (intros; eapply sumf_upd; eauto).
+  pose proof (sumf_ge_nth _ w_rd _ _ _ Hk) as G1. pose proof (sumf_ge_nth _ w_bc _ _ _ Hk) as G2. pose proof (sumf_ge_nth _ w_rl _ _ _ Hk) as G3.
+  pose proof J as J0. destruct J as [J1 J2 J3 J4 J5 J6 J7 J8 J9 J10 J11].
+  pose proof (iW' s I) as W. unfold rfree in W.
+  pose proof (sumf_le_pointwise _ e_hold (e_wp c) (exts s) hold_le_wp) as HW.
+  unfold w_step in H.
+  destruct w as [| |d t rest p| |]; try discriminate.
+  - (* WOuter *) brk H; inversion H; subst s1 w'; clear H; su_w SU; constructor; proj; cbn [w_rd w_bc w_rl] in *;
+      try (apply Nat.ltb_lt in Heqb); fin.
+  - (* WInner *)
+    destruct (chanq s) eqn:Ec; destruct (closed s) eqn:Ecl; destruct (0 <? tokens s) eqn:Et; cbn [negb orb andb] in H;
+      brk H; inversion H; subst s1 w'; clear H; su_w SU; constructor; proj; cbn [w_rd w_bc w_rl] in *;
+      try (apply Nat.ltb_lt in Et); fin;
+      try (destruct (kids c n0)); cbn [w_rd w_bc w_rl sp_rd sp_bc] in *; fin.
+  - (* WRun *)
+    destruct rest as [|u rest'].
+    + inversion H; subst s1 w'; clear H; su_w SU; constructor; proj; destruct d; cbn [w_rd w_bc w_rl] in *; fin.
+    + destruct (sub_step c s u p) as [[s2 np]|] eqn:HS; try discriminate.
+      assert (E: s1 = s2 /\ w' = WRun d t (match np with Some _ => u :: rest' | None => rest' end) (match np with Some p' => p' | None => SChk end))
+        by (destruct np; inversion H; auto).
+      destruct E as [-> ->]. clear H.
+      assert (X: exts s2 = exts s /\ wks s2 = wks s).
+      { clear -HS. unfold sub_step in HS. destruct p; brk HS; inversion HS; subst; unfold bcast; try (destruct (disp s)); auto. }
+      destruct X as [X1 X2].
+      eapply (inv2_sub s u p s2 np); eauto; proj; rewrite ?X1, ?X2; auto;
+        try (match goal with |- context [upd _ ?x _] => pose proof (SU w_rd x); pose proof (SU w_bc x); pose proof (SU w_rl x) end);
+        destruct np; destruct d; try (destruct rest'); cbn [w_rd w_bc w_rl rd_of bc_of sp_rd sp_bc] in *; try lia.
+  - (* WDrain *)
+    destruct (chanq s) eqn:Ec; destruct (closed s) eqn:Ecl; destruct (cancel c) eqn:Ecc;
+      brk H; inversion H; subst s1 w'; clear H; su_w SU; constructor; proj; cbn [w_rd w_bc w_rl] in *; fin;
+      try (destruct (kids c n0)); cbn [w_rd w_bc w_rl sp_rd sp_bc] in *; fin.
+Qed.
+
+(* ---------- external threads ---------- *)
+Ltac su_e SU :=
+  match goal with |- Inv2 _ (set_exts (upd _ ?x _) _) =>
+    pose proof (SU e_rd x); pose proof (SU e_bc x); pose proof (SU e_hold x); pose proof (SU e_owed x); pose proof (SU e_send x);
+    pose proof (SU e_sendbc x); pose proof (SU e_wait x) end.
+
+Ltac tob :=
+  repeat match goal with
+  | H : (_ <? _) = true |- _ => apply Nat.ltb_lt in H
+  | H : (_ <? _) = false |- _ => apply Nat.ltb_ge in H
+  | H : (_ =? _) = true |- _ => apply Nat.eqb_eq in H
+  | H : (_ =? _) = false |- _ => apply Nat.eqb_neq in H
+  end.
+
+Ltac emeas := cbn [e_rd e_bc e_hold e_owed e_send e_sendbc e_wait e_wp e_mp epc_ wpc mpc b2n c repaired fStartOut nw negb sp_rd sp_bc] in *.
+
+Lemma inv2_estep : forall s j e s1 e', Inv c s -> Inv2 c s -> nth_error (exts s) j = Some e -> e_step c s j e = Some (s1, e') ->
+  Inv2 c (set_exts (upd j e' (exts s1)) s1).
+Proof.
+  intros s j e s1 e' I J Hj H.
+  assert (SU: forall f x, sumf f (upd j x (exts s)) + f e = sumf f (exts s) + f x) by (intros; eapply sumf_upd; eauto).
+  pose proof (sumf_ge_nth _ e_rd _ _ _ Hj) as G1. pose proof (sumf_ge_nth _ e_bc _ _ _ Hj) as G2.
+  pose proof (sumf_ge_nth _ e_hold _ _ _ Hj) as G3. pose proof (sumf_ge_nth _ e_owed _ _ _ Hj) as G4.
+  pose proof (sumf_ge_nth _ e_send _ _ _ Hj) as G5. pose proof (sumf_ge_nth _ e_sendbc _ _ _ Hj) as G6.
+  pose proof (sumf_ge_nth _ e_wait _ _ _ Hj) as G7.
+  pose proof J as J0. destruct J as [J1 J2 J3 J4 J5 J6 J7 J8 J9 J10 J11].
+  pose proof (iW' s I) as W. unfold rfree in W.
+  pose proof (iM' s I) as M.
+  pose proof (sumf_le_pointwise _ e_hold (e_wp c) (exts s) hold_le_wp) as HW.
+  pose proof (sumf_le_pointwise _ e_send e_sendbc (exts s) send_le_sendbc) as SB.
+  pose proof (sumf_le_length _ w_rl (wks s) rl_le1) as RL. rewrite (iLen c s I) in RL.
+  destruct e as [pc r]. unfold e_step in H. cbn [epc_ ops c repaired fStartOut fSigMx negb orb] in H.
+  destruct pc.
+  - (* EIdle *)
+    destruct r as [|[t| | | |] r']; try discriminate.
+    + (* Submit *)
+      destruct (sub_step c s t SChk) as [[s2 np]|] eqn:HS; try discriminate.
+      assert (E: s1 = s2 /\ e' = mkExt (match np with Some p' => ESub t p' | None => EIdle end) r') by (destruct np; inversion H; auto).
+      destruct E as [-> ->]. clear H.
+      assert (X: exts s2 = exts s /\ wks s2 = wks s).
+      { clear -HS. unfold sub_step in HS. brk HS; inversion HS; subst; auto. }
+      destruct X as [X1 X2].
+      eapply (inv2_sub s t SChk s2 np); eauto; proj; rewrite ?X1, ?X2; auto;
+        try (match goal with |- context [upd _ ?x _] =>
+               pose proof (SU e_rd x); pose proof (SU e_bc x); pose proof (SU e_hold x); pose proof (SU e_owed x); pose proof (SU e_send x);
+               pose proof (SU e_sendbc x); pose proof (SU e_wait x) end);
+        destruct np; emeas; cbn [rd_of bc_of sp_rd sp_bc] in *; try lia.
+    + unfold rfree in H. brk H; inversion H; subst s1 e'; clear H; su_e SU; constructor; proj; emeas; fin.
+    + brk H; inversion H; subst s1 e'; clear H; su_e SU; constructor; proj; emeas; fin.
+    + brk H; inversion H; subst s1 e'; clear H; su_e SU; constructor; proj; emeas; fin.
+    + brk H; inversion H; subst s1 e'; clear H; su_e SU; constructor; proj; emeas; fin.
+  - (* ESub *)
+    destruct (sub_step c s t p) as [[s2 np]|] eqn:HS; try discriminate.
+    assert (E: s1 = s2 /\ e' = mkExt (match np with Some p' => ESub t p' | None => EIdle end) r) by (destruct np; inversion H; auto).
+    destruct E as [-> ->]. clear H.
+    assert (X: exts s2 = exts s /\ wks s2 = wks s).
+    { clear -HS. unfold sub_step in HS. destruct p; brk HS; inversion HS; subst; unfold bcast; try (destruct (disp s)); auto. }
+    destruct X as [X1 X2].
+    eapply (inv2_sub s t p s2 np); eauto; proj; rewrite ?X1, ?X2; auto;
+      try (match goal with |- context [upd _ ?x _] =>
+             pose proof (SU e_rd x); pose proof (SU e_bc x); pose proof (SU e_hold x); pose proof (SU e_owed x); pose proof (SU e_send x);
+             pose proof (SU e_sendbc x); pose proof (SU e_wait x) end);
+      destruct np; emeas; cbn [rd_of bc_of sp_rd sp_bc] in *; try lia.
+  - (* EShAcq *) brk H; inversion H; subst s1 e'; clear H; tob; su_e SU; constructor; proj; emeas; fin.
+  - (* EShBody *) brk H; inversion H; subst s1 e'; clear H; su_e SU; constructor; proj; emeas; fin.
+  - (* EShSend *) destruct k; [unfold smx_free in H; destruct (disp s) eqn:Ed; try discriminate|];
+      brk H; inversion H; subst s1 e'; clear H; tob; su_e SU; constructor; proj; rewrite ?Ed in *; cbn [dpost] in *; emeas; fin.
+  - (* EShBc *) inversion H; subst s1 e'; clear H; su_e SU; unfold bcast; destruct (disp s) eqn:Ed; constructor; proj;
+      rewrite ?Ed in *; cbn [dpost] in *; emeas; fin.
+  - (* EShUnl *) inversion H; subst s1 e'; clear H; su_e SU; constructor; proj; emeas; fin.
+  - (* EStChk *) brk H; inversion H; subst s1 e'; clear H; su_e SU; constructor; proj; emeas; fin.
+  - (* EStWait *) brk H; inversion H; subst s1 e'; clear H; su_e SU; constructor; proj; emeas; fin.
+  - (* EStAnn *) unfold rfree in H. brk H; inversion H; subst s1 e'; clear H; su_e SU; constructor; proj; emeas; fin.
+  - (* EStAcq *) brk H; inversion H; subst s1 e'; clear H; tob; su_e SU; constructor; proj; emeas; fin.
+  - (* EStGo *)
+    inversion H; subst s1 e'; clear H.
+    assert (AD: all_dead s = true) by (eapply (iX c s I j); eauto).
+    unfold all_dead in AD.
+    pose proof (sumf_dead w_rd _ eq_refl AD) as D1. pose proof (sumf_dead w_bc _ eq_refl AD) as D2.
+    pose proof (sumf_only _ e_owed (e_wp c) _ _ _ owed_wp Hj) as O1.
+    pose proof (sumf_only _ e_wait (e_mp c) _ _ _ wait_mp Hj) as O2.
+    su_e SU. unfold do_start. constructor; proj; emeas; rewrite ?sumf_repeat0 by reflexivity; cbn [dpost] in *;
+      destruct (writer s); destruct (startmx s); cbn [b2n negb] in *; fin.
+  - (* EStUnl *) inversion H; subst s1 e'; clear H; su_e SU; constructor; proj; emeas; fin.
+  - (* EStRel *) inversion H; subst s1 e'; clear H; su_e SU; constructor; proj; emeas; fin.
 Qed.
 
 End L.
